@@ -158,7 +158,12 @@ def run(ctx):
                                                      fobs(r) if isp else obs3(0, "", 0),
                                                      coq_bytes(r["nout"]) if isp and r["nout"] != "P" else "[]",
                                                      iobs(r["iout"], r["ist"]), iobs(r["bout"], r["bst"])))
-        text = PRELUDE + "Definition cases : list kase := %s.\n" % coq_list(items) + \
+        # small definitions: one long literal makes coqc's parser overflow its stack on some runs
+        CH = 40
+        defs = ["Definition cs%d : list kase := %s.\n" % (j, coq_list(items[j * CH:(j + 1) * CH]))
+                for j in range((len(items) + CH - 1) // CH)]
+        text = PRELUDE + "".join(defs) + \
+            "Definition cases : list kase := concat %s.\n" % coq_list(["cs%d" % j for j in range(len(defs))]) + \
             "Definition R := Eval vm_compute in map mask cases.\nPrint R.\n"
         ok, out = ctx.coq_cases("c24_%d" % sh, text, timeout=1500)
         m = re.search(r"R\s*=\s*\[([^\]]*)\]", out)
